@@ -30,14 +30,19 @@ def budget_s(tier):
 
 
 @st.composite
-def branch(draw, name, npar_key, horizon):
-    refs = [{"arg": i} for i in range(1 + npar_key)]
-    x = refs[-1]
+def branch(draw, name, npar_key, horizon, n_in=1):
+    refs = [{"arg": i} for i in range(n_in + npar_key)]
+    xs = refs[npar_key:]
     body = []
     flags = set()
     n = draw(st.integers(1, 2))
     for j in range(n):
-        ins = [x] if j == 0 else [f"b{j - 1}"]
+        # every branch has the switch's signature but may use any subset of the inputs (one may ignore x, another y)
+        ins = [draw(st.sampled_from(xs))] if j == 0 else [f"b{j - 1}"]
+        if len(xs) > 1 and draw(st.booleans()):
+            other = [r for r in xs if r not in ins]
+            if other:
+                ins.append(draw(st.sampled_from(other)))
         if npar_key and draw(st.booleans()):
             ins.append(refs[0])
         kind = draw(st.sampled_from(["sum", "acc", "count", "timer"]))
@@ -52,7 +57,7 @@ def branch(draw, name, npar_key, horizon):
             if kind != "sum":
                 flags.add("stateful")
         body.append(node)
-    names = (["key"] if npar_key else []) + ["x"]
+    names = (["key"] if npar_key else []) + ["x", "y"][:n_in]
     return {"params": ["TS[int]"] * len(names), "names": names, "out": "TS[int]", "stmts": body, "ret": f"b{n - 1}"}, sorted(flags)
 
 
@@ -64,12 +69,13 @@ def case(draw, tier):
     end = start + horizon
     nb = draw(st.integers(2, 3))
     with_key = draw(st.booleans())
+    n_in = draw(st.sampled_from([1, 1, 2]))
     subs, flags = {}, {}
     for i in range(nb):
-        subs[f"B{i}"], flags[i] = draw(branch(f"B{i}", 1 if with_key else 0, horizon))
+        subs[f"B{i}"], flags[i] = draw(branch(f"B{i}", 1 if with_key else 0, horizon, n_in))
     has_default = draw(st.integers(0, 3)) == 0
     if has_default:
-        subs["BD"], flags["d"] = draw(branch("BD", 1 if with_key else 0, horizon))
+        subs["BD"], flags["d"] = draw(branch("BD", 1 if with_key else 0, horizon, n_in))
     reload = draw(st.integers(0, 3)) == 0
     unmatched = (not has_default) and draw(st.integers(0, 9)) == 0
     times = draw(gen.time_set(start, end - 1, 1, 10 if big else 7))
@@ -78,7 +84,8 @@ def case(draw, tier):
     for t in times:
         key_script.append([t, [{"k": "set", "v": draw(st.sampled_from(keyvals if (has_default or (unmatched and t == times[-1])) else list(range(nb))))}]])
     x_script = draw(gen.int_script(start, end - 1, max_size=9 if big else 6))
-    return {"start": start, "end": end, "subs": subs, "nb": nb, "with_key": with_key, "has_default": has_default, "reload": reload,
+    y_script = draw(gen.int_script(start, end - 1, max_size=6 if big else 4)) if n_in == 2 else None
+    return {"y_script": y_script, "start": start, "end": end, "subs": subs, "nb": nb, "with_key": with_key, "has_default": has_default, "reload": reload,
             "key_script": key_script, "x_script": x_script, "flags": {str(k): v for k, v in flags.items()}}
 
 
@@ -111,8 +118,8 @@ def check(case, ctx) -> Result:
         carg["default"] = "BD"
     prog = {"start": start, "end": end, "subs": case["subs"], "stmts": [
         {"id": "key", "op": "src", "schema": "TS[int]", "script": case["key_script"]},
-        {"id": "x", "op": "src", "schema": "TS[int]", "script": case["x_script"]},
-        {"id": "sw", "op": "op", "name": "switch_", "args": [{"ts": "key"}, carg, {"ts": "x"}], "has_out": True},
+        {"id": "x", "op": "src", "schema": "TS[int]", "script": case["x_script"]}] + ([{"id": "y", "op": "src", "schema": "TS[int]", "script": case["y_script"]}] if case.get("y_script") is not None else []) + [
+        {"id": "sw", "op": "op", "name": "switch_", "args": [{"ts": "key"}, carg, {"ts": "x"}] + ([{"ts": "y"}] if case.get("y_script") is not None else []), "has_out": True},
         {"id": "rec", "op": "node", "ins": ["sw"], "valid": []}]}
     resp = ctx.run(prog)
     if resp.get("crash"):
@@ -145,10 +152,11 @@ def check(case, ctx) -> Result:
             kt = [t for t, ops in case["key_script"] if ts <= t < te]
             solo.append({"id": f"k{i}", "op": "src", "schema": "TS[int]", "script": [[t, [{"k": "set", "v": k}]] for t in kt]})
             ins.append(f"k{i}")
-        cur = [v for t, v in x_ticks if t <= ts]
-        sc = ([[ts, [{"k": "set", "v": cur[-1]}]]] if cur else []) + [[t, [{"k": "set", "v": v}]] for t, v in x_ticks if ts < t < te]
-        solo.append({"id": f"x{i}", "op": "src", "schema": "TS[int]", "script": sc})
-        ins.append(f"x{i}")
+        for nm_, ticks in (("x", x_ticks),) + ((("y", [(t, ops[-1]["v"]) for t, ops in case["y_script"]]),) if case.get("y_script") is not None else ()):
+            cur = [v for t, v in ticks if t <= ts]
+            sc = ([[ts, [{"k": "set", "v": cur[-1]}]]] if cur else []) + [[t, [{"k": "set", "v": v}]] for t, v in ticks if ts < t < te]
+            solo.append({"id": f"{nm_}{i}", "op": "src", "schema": "TS[int]", "script": sc})
+            ins.append(f"{nm_}{i}")
         solo.append({"id": f"f{i}", "op": "inline", "sub": sub, "ins": ins})
         solo.append({"id": f"r{i}", "op": "node", "ins": [f"f{i}"]})
     exp = []
@@ -203,6 +211,8 @@ def check(case, ctx) -> Result:
         res.labels.append("default_branch")
     if case["with_key"]:
         res.labels.append("key_consuming")
+    if case.get("y_script") is not None:
+        res.labels.append("two_inputs_used_selectively")
     if any(any(t == ts for t, _ in x_ticks) for _, ts, _ in ivs[1:]):
         res.labels.append("flip_with_input_tick")
     res.summary = {"intervals": ivs[:10], "stream": got[:14]}
